@@ -457,6 +457,10 @@ impl<K: KeyT, V: ValT> MapWorld<K, V> {
         self.note_entry_state(si);
         let mut expect_model = self.slots[si].model.clone();
         let expect = Self::model_entry_chain(&mut expect_model, kid, ks, &methods, &vtoks);
+        let forget_entry = op.c == 1;
+        if forget_entry {
+            sim().probe(Probe::LeakEntry);
+        }
         let m = self.slots[si].map.as_mut().unwrap();
         let mut spare: Vec<V> = Vec::new();
         let mut ret_k: Vec<K> = Vec::new();
@@ -471,10 +475,11 @@ impl<K: KeyT, V: ValT> MapWorld<K, V> {
             }
             let mut vals = vals.into_iter();
             let mut log: Vec<Ev> = Vec::new();
+            let mut run = || -> Option<St<'_, K, V>> {
             let mut st = St::E(m.entry(key));
             for &mth in &methods {
                 st = match (st, mth) {
-                    (St::Done, _) => break,
+                    (St::Done, _) => return None,
                     (St::E(e), 1) => St::O(e.insert(vals.next().unwrap())),
                     (St::E(e), 2) => {
                         let r = e.or_insert(vals.next().unwrap());
@@ -624,19 +629,35 @@ impl<K: KeyT, V: ValT> MapWorld<K, V> {
                         St::Done
                     }
                     (St::V(v), 23) => St::O(v.insert_entry(vals.next().unwrap())),
-                    (s, _) => {
-                        drop(s);
-                        break;
-                    }
+                    (s, _) => return Some(s),
                 };
             }
-            // the entry (if any) is dropped here; unused values go back to the harness
+            Some(st)
+            };
+            // the entry (if any) is dropped or leaked here; unused values go back to the harness
+            let fin = run();
+            if forget_entry {
+                std::mem::forget(fin);
+            } else {
+                drop(fin);
+            }
             sp.extend(vals);
             log
         });
         drop(spare);
         drop(ret_k);
         drop(ret_v);
+        if forget_entry && K::HAS_SERIAL {
+            // a leaked Vacant entry leaks the key it owns (the one passed in, or the stored key that a
+            // replace_entry_with -> None handed to it): exactly that key, deliberately
+            let act = self.actual(si);
+            let old_ks = self.slots[si].model.get(kid).map(|e| e.ks);
+            for cand in std::iter::once(ks).chain(old_ks) {
+                if sim().serial_state[cand as usize] == 1 && !act.iter().any(|(e, _)| e.ks == cand) {
+                    self.ctx.leaked_serials.insert(cand);
+                }
+            }
+        }
         let Some(log) = self.settle(out, si, fc)? else { return Ok(()) };
         if !self.ctx.functional() {
             let act = self.actual(si);
